@@ -94,6 +94,53 @@ pub fn run(op: &str, args: &[&str]) -> Option<String> {
                 Err(e) => verr(&e),
             }
         }
+        /* Entry-level verification: the entry recorded under <entry name> is asked to verify a file with ANOTHER name
+           (<file path>, created with <content>): whether the patch filter applies is decided by the entry, not by the
+           name of the file being read.  Errors are shown with the entry's own name. */
+        ("di.everify", [b, ename, fpath, content, what]) => {
+            let d = Distinfo::from_bytes(&bytes(b));
+            let dir = std::env::temp_dir().join(format!("pkgsrc_harness_e_{}", std::process::id()));
+            let _ = std::fs::remove_dir_all(&dir);
+            std::fs::create_dir_all(&dir).unwrap();
+            let rel = PathBuf::from(OsStr::from_bytes(&bytes(fpath)));
+            let old = std::env::current_dir().unwrap();
+            std::env::set_current_dir(&dir).unwrap();
+            let r = (|| {
+                let entry = match d.find_entry(Path::new(OsStr::from_bytes(&bytes(ename)))) {
+                    Ok(e) => e,
+                    Err(e) => return Ok::<String, String>(verr(&e)),
+                };
+                if *content != "N" {
+                    if let Some(parent) = rel.parent() {
+                        if !parent.as_os_str().is_empty() {
+                            std::fs::create_dir_all(parent).map_err(|_| "SETUP".to_string())?;
+                        }
+                    }
+                    std::fs::write(&rel, bytes(content)).map_err(|_| "SETUP".to_string())?;
+                }
+                let name = show_bytes(path_bytes(&entry.filename));
+                Ok(if *what == "S" {
+                    match entry.verify_size(&rel) {
+                        Ok(n) => format!("OK:{}", n),
+                        Err(DistinfoError::Size(_, exp, act)) => format!("E:Size:{}:{}:{}", exp, act, name),
+                        Err(e) => verr(&e),
+                    }
+                } else {
+                    let a = ALGS[what.parse::<usize>().unwrap()];
+                    match entry.verify_checksum(&rel, a) {
+                        Ok(g) => format!("OK:{}", alg_idx(&g)),
+                        Err(DistinfoError::Checksum(_, dg, exp, act)) => format!("E:Checksum:{}:{}:{}:{}", alg_idx(&dg), show_bytes(exp.as_bytes()), show_bytes(act.as_bytes()), name),
+                        Err(e) => verr(&e),
+                    }
+                })
+            })();
+            std::env::set_current_dir(&old).unwrap();
+            let _ = std::fs::remove_dir_all(&dir);
+            match r {
+                Ok(s) => s,
+                Err(s) => s,
+            }
+        }
         /* rcsid ("N" = none), then one argument per entry */
         ("di.build", _) => {
             let mut d = Distinfo::new();
